@@ -855,6 +855,9 @@ class SymInt(Sym):
         return s_pow(self, o)
 
 
+INT_FORK_LIMIT = 8
+
+
 class SymFloat(Sym):
     """Extended real: finite payload r (z3 Real) unless one of the mutually
     exclusive tags nan / pinf / ninf holds (python bool or z3 Bool)."""
@@ -882,6 +885,23 @@ class SymFloat(Sym):
 
     def zero(self):
         return b_and(self.fin(), self.r == 0)
+
+    def __int__(self):
+        """int(x): truncation towards zero, by forking over the feasible integer values (Python raises for NaN / inf).
+        When more than INT_FORK_LIMIT values are feasible the exploration is restricted to the values of smallest
+        magnitude and the path is marked inconclusive (bug hunting only on such a path)."""
+        c = ctx()
+        if c.branch(z3b(self.nan)):
+            raise ValueError("cannot convert float NaN to integer")
+        if c.branch(z3b(b_or(self.pinf, self.ninf))):
+            raise OverflowError("cannot convert float infinity to integer")
+        k = z3.If(self.r >= 0, z3.ToInt(self.r), -z3.ToInt(-self.r))
+        try:
+            return c.concretize_int(k, what="int(float)", limit=INT_FORK_LIMIT)
+        except Unencodable:
+            c.inconclusive.append(f"int(float) with more than {INT_FORK_LIMIT} feasible values: restricted to |value| <= {INT_FORK_LIMIT // 2}")
+            c.add(z3.And(k >= -(INT_FORK_LIMIT // 2), k <= INT_FORK_LIMIT // 2))
+            return c.concretize_int(k, what="int(float)", limit=INT_FORK_LIMIT + 1)
 
     def __bool__(self):
         return ctx().branch(b_not(self.zero()))
